@@ -9,6 +9,8 @@ import (
 
 	"github.com/bytecodealliance/wasmtime-go/v20"
 
+	"cosmossdk.io/math"
+
 	sdk "github.com/cosmos/cosmos-sdk/types"
 
 	band "github.com/bandprotocol/chain/v3/app"
@@ -149,12 +151,15 @@ type OracleActor struct {
 	ReactivateP int
 	expCount   int64
 	FeeLimit   sdk.Coins
+	DSFees     map[int64]sdk.Coins // data source id -> fee (requester's knowledge); nil: fees not exercised
+	Requesters []*world.Account
 	// ReportPolicy weights: now, +1, +2, exp-1, exp, exp+1, never
 	PolicyW []int
 }
 
 type reqMeta struct {
-	Msg *oracletypes.MsgRequestData
+	Msg       *oracletypes.MsgRequestData
+	LimitKind string
 }
 type repMeta struct {
 	Msg  *oracletypes.MsgReportData
@@ -277,9 +282,65 @@ func (a *OracleActor) newRequest(e *Env) {
 		enc = []oracletypes.Encoder{oracletypes.ENCODER_PROTO, oracletypes.ENCODER_FULL_ABI, oracletypes.ENCODER_PARTIAL_ABI}[e.Ch.Intn("oracle.req.enc", 3)]
 	}
 	sender := w.Users[1+e.Ch.Intn("oracle.req.sender", len(w.Users)-1)]
+	if len(a.Requesters) > 0 {
+		sender = a.Requesters[e.Ch.Intn("oracle.req.sender2", len(a.Requesters))]
+	}
 	feeLimit := a.FeeLimit
+	limitKind := "fixed"
+	if a.DSFees != nil {
+		cost := a.costOf(script, calldata, ask)
+		switch e.Ch.Weighted("oracle.req.limit", []int{55, 15, 15, 8, 7}) {
+		case 0:
+			limitKind = "ample"
+			feeLimit = cost.Add(sdk.NewInt64Coin("uband", 50), sdk.NewInt64Coin("uusd", 50))
+		case 1:
+			limitKind = "exact"
+			feeLimit = cost
+		case 2:
+			limitKind = "one_below"
+			if len(cost) > 0 {
+				i := e.Ch.Intn("oracle.req.limit.denom", len(cost))
+				feeLimit = cost.Sub(sdk.NewCoin(cost[i].Denom, math.NewInt(1)))
+			} else {
+				feeLimit = sdk.NewCoins()
+			}
+		case 3:
+			limitKind = "missing_denom"
+			if len(cost) > 1 {
+				feeLimit = sdk.NewCoins(cost[0])
+			} else {
+				feeLimit = sdk.NewCoins()
+			}
+		case 4:
+			limitKind = "one_above"
+			feeLimit = cost.Add(sdk.NewInt64Coin("uband", 1))
+		}
+	}
 	msg := oracletypes.NewMsgRequestData(oracletypes.OracleScriptID(script), calldata, ask, min, client, feeLimit, 1_000_000, 3_000_000, sender.Addr, enc)
-	e.Submit(sender, "request", &reqMeta{Msg: msg}, msg)
+	e.Submit(sender, "request", &reqMeta{Msg: msg, LimitKind: limitKind}, msg)
+}
+
+// costOf is the requester's own estimate of the data-source fees of a request (ask_count x sum of fees).
+func (a *OracleActor) costOf(script int, calldata []byte, ask uint64) sdk.Coins {
+	var ids []int64
+	switch script {
+	case scriptEcho:
+		var in testdata.Wasm4Input
+		if err := obi.Decode(calldata, &in); err == nil {
+			ids = in.IDs
+		}
+	case scriptSimple:
+		ids = []int64{1, 2, 3}
+	case scriptNoRet, scriptTrap:
+		ids = []int64{1}
+	}
+	cost := sdk.NewCoins()
+	for _, id := range ids {
+		if f, ok := a.DSFees[id]; ok {
+			cost = cost.Add(f.MulInt(math.NewIntFromUint64(ask))...)
+		}
+	}
+	return cost
 }
 
 func scriptWeights(s []int) []int {
